@@ -524,10 +524,12 @@ def render(deck, rng=None):
         if cell.get('like') is not None and rng is not None:
             if 'text' not in cell:
                 cell['text'] = like_text(rng, cell)
-            out.append(deckmod.wrap(cell['text']))
+                cell['lead'] = rng.choice(['', '', '', '', '', ' ', '   '])
+            out.append(cell.get('lead', '') + deckmod.wrap(cell['text']))
         elif cell.get('like') is not None:
-            out.append(deckmod.wrap(cell.get('text')
-                                    or deckmod.cell_text(cell)))
+            out.append(cell.get('lead', '')
+                       + deckmod.wrap(cell.get('text')
+                                      or deckmod.cell_text(cell)))
         elif cell.get('upper'):
             # explicit card with its options in capitals
             opts = deckmod.cell_options(cell)
